@@ -3203,7 +3203,13 @@ define_array_type(InterrogateType &itype, CPPArrayType *cpptype) {
     // This indicates an unsized array.
     itype._array_size = -1;
   } else {
-    itype._array_size = cpptype->_bounds->evaluate().as_integer();
+    CPPExpression::Result result = cpptype->_bounds->evaluate();
+    if (result._type == CPPExpression::RT_error) {
+      // We cannot evaluate the bound; don't record a made-up number.
+      itype._array_size = -1;
+    } else {
+      itype._array_size = result.as_integer();
+    }
   }
 }
 
